@@ -7,12 +7,15 @@ package bitswap
 // send errors), the datastores (simds), content routing, the clock, the scheduler.
 
 import (
+	"bytes"
 	"context"
 	"fmt"
 	"sort"
 	"testing"
 	"time"
 
+	bsmsg "github.com/ipfs/boxo/bitswap/message"
+	pb "github.com/ipfs/boxo/bitswap/message/pb"
 	"github.com/ipfs/boxo/blockstore"
 	"github.com/ipfs/boxo/exchange"
 	"github.com/ipfs/boxo/internal/verifsim"
@@ -188,6 +191,7 @@ func (r *c37Router) FindProvidersAsync(ctx context.Context, c cid.Cid, max int) 
 type c37LocalAdd struct {
 	node, block int
 	at          time.Duration
+	racing      map[*c37Live]bool // requests of the node that were waiting for the block at that time
 }
 
 type c37Live struct {
@@ -220,10 +224,10 @@ func c37Run(t *testing.T, ci any, trace bool) *verifsim.Result {
 			holders[i] = map[int]bool{}
 		}
 		type node struct {
-			bs     *Bitswap
-			store  blockstore.Blockstore
-			ds     *simds.DS
-			adapt  *simnet.Node
+			bs    *Bitswap
+			store blockstore.Blockstore
+			ds    *simds.DS
+			adapt *simnet.Node
 		}
 		nodes := make([]*node, c.Nodes)
 		for i := range nodes {
@@ -256,7 +260,12 @@ func c37Run(t *testing.T, ci any, trace bool) *verifsim.Result {
 			nd.bs = New(ctx, nd.adapt, rt, nd.store,
 				ProviderSearchDelay(time.Duration(c.ProvSearchMS)*time.Millisecond),
 				RebroadcastDelay(time.Duration(c.RebroadcastS)*time.Second),
-				SetSimulateDontHavesOnTimeout(c.SimDontHave))
+				SetSimulateDontHavesOnTimeout(c.SimDontHave),
+				// 128 blockstore workers per node (the default) put more than 256
+				// goroutines into the run queue at start-up; the overflow goes through
+				// the scheduler's global queue, whose polling phase depends on what the
+				// runtime's own background goroutines did before: not replayable
+				EngineBlockstoreWorkerCount(4))
 			nd.ds.Quiet = c.QuietStores
 		}
 		if c.FullMesh {
@@ -390,6 +399,9 @@ func c37Run(t *testing.T, ci any, trace bool) *verifsim.Result {
 						}
 						lv2.cancel = lv.cancel
 						group = append(group, lv2)
+						if rctx.Err() != nil {
+							lv2.cancelled = true // the timed cancel fired while the first fetch was being issued
+						}
 						lives = append(lives, lv2)
 						ch2, err := f.GetBlocks(rctx, keys2)
 						if err != nil {
@@ -428,7 +440,16 @@ func c37Run(t *testing.T, ci any, trace bool) *verifsim.Result {
 							panic(err)
 						}
 						holders[op.B][op.A] = true
-						localAdds = append(localAdds, c37LocalAdd{node: op.A, block: op.B, at: s.Now()})
+						la := c37LocalAdd{node: op.A, block: op.B, at: s.Now(), racing: map[*c37Live]bool{}}
+						for _, lv := range lives {
+							// requests of this node that are waiting for the block right now
+							if lv != nil && lv.node == op.A && lv.issued && !lv.cancelled && !lv.closed && lv.got[pool[op.B].Cid().KeyString()] == 0 {
+								if _, wants := lv.want[pool[op.B].Cid().KeyString()]; wants {
+									la.racing[lv] = true
+								}
+							}
+						}
+						localAdds = append(localAdds, la)
 						if err := nd.bs.NotifyNewBlocks(ctx, pool[op.B]); err != nil {
 							s.Failf("notify-failed", "NotifyNewBlocks failed: %v", err)
 						}
@@ -538,16 +559,16 @@ func c37Run(t *testing.T, ci any, trace bool) *verifsim.Result {
 				}
 				for _, w := range nd.bs.GetWantlist() {
 					if !allowed[w.KeyString()] {
-						// known finding: the block was handed to NotifyNewBlocks on this node at the
-						// very instant a fetch for it was issued here (the session registers its
-						// interest asynchronously, so the local block can slip past the session
-						// while the caller still gets it through the pubsub)
+						// known finding: the block was handed to NotifyNewBlocks on this node while
+						// a fetch for it was waiting here (the session registers its interest
+						// asynchronously, so the local block can slip past a session that has
+						// not got that far, while the caller still gets it through the pubsub)
 						b := index[w.KeyString()]
 						for _, la := range localAdds {
 							for _, lv := range lives {
-								if la.node == ni && la.block == b && lv.node == ni && lv.issued && !lv.cancelled && lv.issuedAt == la.at {
+								if la.node == ni && la.block == b && la.racing[lv] && !lv.cancelled {
 									if lv.got[w.KeyString()] > 0 && when == "after the settle phase" {
-										s.Failf("want-left-behind-after-racing-local-add", "%s: node %d's want-list still contains block #%d; req#%d received it, and the block had been added locally on that node (NotifyNewBlocks) at t=%v, the instant at which that request was issued", when, ni, b, lv.idx, la.at)
+										s.Failf("want-left-behind-after-racing-local-add", "%s: node %d's want-list still contains block #%d; req#%d (issued at t=%v) received it, and the block had been added locally on that node (NotifyNewBlocks) at t=%v while that request was waiting for it", when, ni, b, lv.idx, lv.issuedAt, la.at)
 										return false
 									}
 								}
@@ -577,7 +598,36 @@ func c37Run(t *testing.T, ci any, trace bool) *verifsim.Result {
 	})
 }
 
+// c37Prewarm initialises the lazily built protobuf descriptors of every message
+// field before the first run, outside any bubble, so that no run differs from
+// the others by being the first one to use a field.
+func c37Prewarm() {
+	b := c37Block(0, false)
+	m := bsmsg.New(true)
+	m.AddEntry(b.Cid(), 1, pb.Message_Wantlist_Block, true)
+	m.AddEntry(c37Block(1, false).Cid(), 1, pb.Message_Wantlist_Have, false)
+	m.Cancel(c37Block(2, false).Cid())
+	m.AddBlock(b)
+	m.AddHave(b.Cid())
+	m.AddDontHave(b.Cid())
+	m.SetPendingBytes(7)
+	var buf bytes.Buffer
+	if err := m.ToNetV1(&buf); err != nil {
+		panic(err)
+	}
+	if _, _, err := bsmsg.FromNet(bytes.NewReader(buf.Bytes())); err != nil {
+		panic(err)
+	}
+	buf.Reset()
+	if err := m.ToNetV0(&buf); err != nil {
+		panic(err)
+	}
+	_ = m.Size()
+	_ = m.Clone()
+}
+
 func TestVerifC37(t *testing.T) {
+	c37Prewarm()
 	verifsim.Main(t, verifsim.Harness{
 		Property: "C37",
 		Name:     "bitswap-exchange",
